@@ -217,7 +217,7 @@ int main(int argc, char** argv) {
   std::vector<pbt::Prop> props;
   props.push_back({"exhaustive_small", propEnumSmall, 0, 0, true, false, "16 types of depth <=3 over X1 (one Z*C1), every value over {1,2}: round trip, eager and lazy"});
   props.push_back({"exhaustive_medium", propEnumMedium, 0, 0, true, true, "6 types with up to 65536 values each over {1,2}: round trip"});
-  props.push_back({"roundtrip", propRoundTrip, 12000, 100000, false, false, "random (type, value, construction): Unpack(FromSData(v,t).data, t) == v, header"});
-  props.push_back({"decode_arbitrary", propDecode, 20000, 150000, false, false, "random / mutated / mistyped tables against a type: nullopt or a deeply type-conforming value"});
+  props.push_back({"roundtrip", propRoundTrip, 7000, 100000, false, false, "random (type, value, construction): Unpack(FromSData(v,t).data, t) == v, header"});
+  props.push_back({"decode_arbitrary", propDecode, 14000, 150000, false, false, "random / mutated / mistyped tables against a type: nullopt or a deeply type-conforming value"});
   return pbt::main(argc, argv, "C16", props);
 }
